@@ -30,8 +30,10 @@ func (s *Sess) havocMods(st *State, mod map[string]bool, oldTop string) {
 	if mod["*"] {
 		// everything may change: start a new epoch
 		s.nfresh++
+		prev := epochPred{heap: st.heap, base: st.base, top: oldTop, except: mod}
 		st.base = fmt.Sprintf("Hall%d", s.nfresh)
 		s.epochTop[st.base] = newTop
+		s.epochPrev[st.base] = []epochPred{prev}
 		st.heap = map[string]string{}
 		s.havocCalls["*"] = true
 		return
@@ -235,7 +237,7 @@ func (s *Sess) enterLoop(li *loopInfo, st *State, entryPreds []*ssa.BasicBlock) 
 			c := s.loopEnv(li, entryHeap, func(p *ssa.Phi) Val { return entryVals[p] })
 			f, err := c.evalBool(inv.E)
 			if err != nil {
-				s.unsupp("loop %d invariant %q: %v", li.ordinal, inv.Src, err)
+				s.detached("loop %d invariant %q: %v", li.ordinal, inv.Src, err)
 				continue
 			}
 			s.oblige(entryHeap, "inv", fmt.Sprintf("inv%d.%s.entry", li.ordinal, labelOr(inv.Label, i)), f, h.Instrs[0].Pos(), inv.Src)
@@ -326,7 +328,7 @@ func (s *Sess) checkBackEdge(li *loopInfo, from *ssa.BasicBlock) {
 			c := s.loopEnv(li, st, next)
 			f, err := c.evalBool(inv.E)
 			if err != nil {
-				s.unsupp("loop %d invariant %q (step): %v", li.ordinal, inv.Src, err)
+				s.detached("loop %d invariant %q (step): %v", li.ordinal, inv.Src, err)
 				continue
 			}
 			s.oblige(st, "inv", fmt.Sprintf("inv%d.%s.step%s", li.ordinal, labelOr(inv.Label, i), suffix), f, from.Instrs[len(from.Instrs)-1].Pos(), inv.Src)
